@@ -83,7 +83,10 @@ CLAIMS = {
          "oracles `skip_justified` and `max_threads` on every REAL layout",
          "genuine defect found and repaired (fix: f8d62d5): pre-barrier and repeated dependencies were never crossed off",
          "invariant induction + differential correspondence", "5 C10"),
- "C11": ("PARTIAL proof: theorems about a pool MODEL (Pool.v: P workers, an idle worker takes a pending group, rendezvous heads): with "
+ "C11": ("PARTIAL proof. (a) the logic half - which pool runs the systems of a batch - is a theorem for ALL trees of add_pool/add_batch calls "
+         "(PoolCells.v: C11_every_dispatcher_of_the_tree_uses_the_outermost_pool, C11_the_pool_of_the_tree_is_the_attached_one; the code before "
+         "fix 94c4994 is refuted), tied to the crate by suite S9 (the same trees built for real, named user pools, a probe system per builder). "
+         "(b) theorems about a pool MODEL (Pool.v: P workers, an idle worker takes a pending group, rendezvous heads): with "
          "P >= width no reachable non-final state is stuck and the all-inside-run state is reachable; with P < width a deadlock is "
          "reachable (the precondition is needed). tie: S8 on the REAL crate and REAL rayon pools: for every stage width 2..16 x "
          "{user pool of exactly `width` threads, user pool of 16, default pool (one thread per CPU, widths <= CPUs), inside a batch, "
